@@ -120,7 +120,7 @@ func init() {
 		return fmt.Sprintf("%v#%s", u.HasFilePermission(path, "readfiles"), pathOracle(path, rules))
 	}
 
-	// c08.cat <glob> <rules> : a real cat session; which file contents are served
+	// c08.cat <glob> <rules> [<command word with options>] : a real read session; which file contents are served
 	ops["c08.cat"] = func(a []string) string {
 		root := makeTree()
 		os.Chdir(root)
@@ -158,7 +158,12 @@ func init() {
 				}
 			}
 		}()
-		cmd := "cat: " + glob + " regex:noop "
+		// the command word and the options are the client's to choose: none of them may change what is served
+		head := "cat:"
+		if len(a) > 2 {
+			head = string(unhex(a[2]))
+		}
+		cmd := head + " " + glob + " regex:noop "
 		go h.Write([]byte("protocol 4.1 base64 " + base64.StdEncoding.EncodeToString([]byte(cmd)) + ";"))
 		deadline := time.Now().Add(3 * time.Second)
 		for time.Now().Before(deadline) {
